@@ -15,8 +15,13 @@ func hIK(kv *base.InternalKV) hIKey {
 	return hIKey{kv.K.UserKey[0], uint64(kv.K.Trailer)}
 }
 
+var hUseLevelIter bool // set by the *LevelIter harnesses: the bottom level is a real levelIter
+
 func hNewMerging(h []hWrite, L int, snapshot base.SeqNum, lower, upper []byte) *mergingIter {
 	levels := hBuildLevels(h, L)
+	if hUseLevelIter {
+		hWithLevelIter(levels, IterOptions{LowerBound: lower, UpperBound: upper})
+	}
 	for i := range levels {
 		levels[i].iter.SetBounds(lower, upper)
 	}
@@ -99,6 +104,9 @@ func hMergedOpsP(N, L, nOps int, stepsAfterFirst bool, kinds []base.InternalKeyK
 	n := 1 + sym.Choose("n", N)
 	h := hHistory(n, kinds)
 	hPlace(h, L)
+	if hUseLevelIter {
+		hNoRangeDelAtBottom(h, L)
+	}
 	snapshot := base.SeqNum(sym.Range("snapshot", 1, n+1))
 	lower, upper, lo, hi := hBoundsFor(bounded)
 	scan := hMergedScan(hNewMerging(h, L, snapshot, lower, upper), h, snapshot, lo, hi)
@@ -187,3 +195,20 @@ func VerifHarness_C33_Ops3_Thorough() { hMergedOps(3, 2, 2, hPointAndRangeKinds,
 
 func VerifHarness_C33_OpsBounded_Thorough() { hMergedOps(3, 2, 3, hPointAndRangeKinds, true) }
 func VerifHarness_C33_Ops4_Thorough()       { hMergedOps(4, 3, 2, hAllKinds, false) }
+
+// The bottom level is the real levelIter over two files (point keys only there).
+func hNoRangeDelAtBottom(h []hWrite, L int) {
+	for _, w := range h {
+		sym.Assume(sym.Or(w.kind != hKRDel, w.level != L-1))
+	}
+}
+
+func VerifHarness_C33_LevelIterOps() {
+	hUseLevelIter = true
+	hMergedOpsP(2, 2, 3, true, hPointAndRangeKinds, false)
+}
+
+func VerifHarness_C33_LevelIterOps3_Thorough() {
+	hUseLevelIter = true
+	hMergedOpsP(3, 2, 3, true, []base.InternalKeyKind{hKSet, hKRDel}, true)
+}
